@@ -133,7 +133,9 @@ func trGetMem(canaryKey string) trMem {
 			return "none"
 		}
 		if age > trLongGrace*time.Second {
-			return "elapsed"
+			// an elapsed expectation and no expectation are observationally the same (RV.Props.Traffic.runGrace_elapsed_none),
+			// and the package's background cleaner turns the one into the other at any time: report both as "none"
+			return "none"
 		}
 		return "fresh"
 	}
